@@ -99,7 +99,14 @@ def pr(e, ctx: int = 0) -> str:
         return "(" + pr(e[1], 0) + ")"
     if k == "tag":
         inner = e[2]
-        s = pr(inner, 5) if inner[0] in ("id", "grp") else "(" + pr(inner, 0) + ")"
+        base = inner
+        while base[0] in POSTFIX:
+            base = base[1]
+        if base[0] in ("id", "grp"):
+            # `#tag = node postfix*` is one term in pest's meta-grammar
+            s = pr(inner, 4)
+        else:
+            s = "(" + pr(inner, 0) + ")"
         return wrap("#" + e[1] + " = " + s, 3)
     raise ValueError(k)
 
